@@ -276,6 +276,13 @@ pub fn accept_probability(cfg: &Cfg, spec: &ProbeSpec, t: usize, d: f64) -> Resu
 }
 
 /// `rejecting`: the steps before t are invalid proposals (all rejected) instead of improvements.
+/// The score difference the optimiser actually sees at step t for a requested drop d (the
+/// scripted answer is rounded).
+pub fn effective_drop(spec: &ProbeSpec, t: usize, d: f64, rejecting: bool) -> f64 {
+    let base = if rejecting { spec.s0 } else { (t - 1) as f64 };
+    base - (base - d)
+}
+
 pub fn accept_probability_h(cfg: &Cfg, spec: &ProbeSpec, t: usize, d: f64, rejecting: bool) -> Result<(f64, u64), String> {
     // all steps but t are decided whatever the temperature; step t is worse by d
     let n = spec.n();
@@ -414,7 +421,7 @@ pub fn c07(tier: Tier) -> ! {
             Ok((p, n)) => {
                 bisections += 1;
                 replays += n;
-                let want = (-d / kt).exp();
+                let want = (-effective_drop(&spec, t, d, false) / kt).exp();
                 if p > 0. && p < 1. {
                     interior += 1;
                 }
@@ -600,7 +607,8 @@ pub fn measure_temperature(cfg: &Cfg, spec: &ProbeSpec, t: usize, guess: f64, re
     let mut replays = 0;
     let mut saw_zero = false;
     let mut saw_one = false;
-    for _ in 0..8 {
+    let mut refinements = 0;
+    for _ in 0..12 {
         match accept_probability_h(cfg, spec, t, d, rejecting) {
             Err(_) => return (Temp::Unobservable, replays),
             Ok((p, n)) => {
@@ -625,7 +633,16 @@ pub fn measure_temperature(cfg: &Cfg, spec: &ProbeSpec, t: usize, guess: f64, re
                         break;
                     }
                 } else {
-                    return (Temp::Kt(-d / p.ln()), replays);
+                    let de = effective_drop(spec, t, d, rejecting);
+                    let kt = -de / p.ln();
+                    // ln p is well conditioned only away from 0 and 1, and the rounded drop must
+                    // still resolve d: otherwise refine once around the estimate
+                    if (p < 1e-4 || p > 0.99 || (de - d).abs() > 1e-3 * d) && refinements < 3 && kt > 1e-12 && kt < 1e12 {
+                        refinements += 1;
+                        d = 0.7 * kt;
+                        continue;
+                    }
+                    return (Temp::Kt(kt), replays);
                 }
             }
         }
